@@ -7,5 +7,5 @@ CONSTANTS
   HIGH <- THigh
   LOW <- TLow
   Hash <- THash
-  CapRule = "slots"
+  CapRule = "free"
 POSTCONDITION TraceAccepted
